@@ -244,11 +244,14 @@ var DecodePushRequestStringV2 = Build(
 	withLogsParser(func(ctx *ParserCtx) iLogsParser { return &pushRequestDec{ctx: ctx} }))
 
 func encodeLabels(lbls [][]string) string {
-	arrLbls := make([]string, len(lbls))
-	for i, l := range lbls {
-		arrLbls[i] = fmt.Sprintf("%s:%s", strconv.Quote(l[0]), strconv.Quote(l[1]))
+	e := jx.Encoder{}
+	e.ObjStart()
+	for _, l := range lbls {
+		e.FieldStart(l[0])
+		e.Str(l[1])
 	}
-	return fmt.Sprintf("{%s}", strings.Join(arrLbls, ","))
+	e.ObjEnd()
+	return e.String()
 }
 
 func fingerprintLabels(lbls [][]string) uint64 {
